@@ -56,6 +56,28 @@ __CPROVER_assigns(__CPROVER_object_whole(vol))
 __CPROVER_ensures(vol->volume_tracks_.origin_ == 0 && vol->volume_tracks_.len_ == (unsigned)geom_->cylinders * (unsigned)geom_->heads * geom_->sectors &&
                   vol->volume_tracks_.underlying_ == media_ && vol->catalog_location_ == 0);
 
+/* ---- Volume::map_sectors (C14): the root catalogue is asked to label its own sectors at the catalogue's location and its files
+   relative to the start of the volume's data area (Catalog::map_sectors(vol, catalog_origin, data_origin, out) has its own
+   contract in harness/dfs_space.c).  The two differ on Opus DDOS, where the catalogues live in track 0. ---- */
+static struct { unsigned calls; const struct VolumeM *vol; unsigned long cat_origin, data_origin; } MSV;
+static void catalog_map_sectors_v(const struct VolumeM *v, unsigned long cat_origin, unsigned long data_origin)
+{ MSV.calls++; MSV.vol = v; MSV.cat_origin = cat_origin; MSV.data_origin = data_origin; }
+#include "VolumeAccess_origin.inc"
+#include "Volume_volume_data_origin.inc"
+#include "Volume_map_sectors.inc"
+static unsigned long VolumeAccess_origin(const struct VolumeAccess *self)
+__CPROVER_requires(__CPROVER_is_fresh(self, sizeof(*self))) __CPROVER_assigns()
+__CPROVER_ensures(__CPROVER_return_value == self->origin_);
+static unsigned long Volume_volume_data_origin(const struct VolumeM *self)
+__CPROVER_requires(__CPROVER_is_fresh(self, sizeof(*self))) __CPROVER_assigns()
+__CPROVER_ensures(__CPROVER_return_value == self->volume_tracks_.origin_);
+static void Volume_map_sectors(const struct VolumeM *self)
+__CPROVER_requires(__CPROVER_is_fresh(self, sizeof(*self)) && MSV.calls == 0)
+__CPROVER_assigns(MSV)
+__CPROVER_ensures(MSV.calls == 1 && MSV.vol == self && MSV.cat_origin == self->catalog_location_ && MSV.data_origin == self->volume_tracks_.origin_);
+void h_va_origin(void) { const struct VolumeAccess *a; VolumeAccess_origin(a); }
+void h_vol_data_origin(void) { const struct VolumeM *v; Volume_volume_data_origin(v); }
+void h_vol_map_sectors(void) { const struct VolumeM *v; MSV.calls = 0; Volume_map_sectors(v); }
 void h_access_ctor(void) { struct VolumeAccess *a; struct DataAccess *m; VolumeAccess_ctor(a, nondet_ulong(), nondet_ulong(), m); }
 void h_volume_ctor(void) { struct VolumeM *v; struct DataAccess *m; Volume_ctor(v, nondet_uint(), nondet_ulong(), nondet_ulong(), m); }
 void h_opus_vol(void) { struct VolumeM *v; const struct VolumeLocation *l; struct DataAccess *m; init_volumes_opus_vol(v, nondet_int(), l, m); }
